@@ -110,7 +110,10 @@ def rt_check(verdict, b, g, desc, rep, sigprefix):
                           "%s :: %s" % (desc, "; ".join(p for _, p in probs[:3])), dict(rep, texts=[t1, t2, t3]))
 
 
-def replay(verdict, exe, res, aspects, seed=0, tag="api", pol=None, sigprefix="api", extra_before=None):
+OPT_VARIANT = {"setint", "setfloat", "setbool", "setstr", "setmulti", "setcomment", "rmnsec", "rmtsec"}
+
+
+def replay(verdict, exe, res, aspects, seed=0, tag="api", pol=None, sigprefix="api", extra_before=None, optvariant=False):
     pol = pol or {"mod": "nonsec", "reset": False, "cmt": False}
     schema = res.schemas[1]
     pretoks = res.extra.get("PRETOKS", [None])[0]
@@ -134,7 +137,11 @@ def replay(verdict, exe, res, aspects, seed=0, tag="api", pol=None, sigprefix="a
             lines.append(call_cmd(e["call"], schema))
         lines.append("dump 1")
         lines.append("obs c1")
-        lines.append(call_cmd(b["calls"][-1]["call"], schema))
+        last_cmd = call_cmd(b["calls"][-1]["call"], schema)
+        if optvariant and b["calls"][-1]["call"]["op"] in OPT_VARIANT and "valid2" not in str(b.get("fail2", 0)):
+            # the cfg_opt_* form of the same call (option looked up with cfg_getopt first)
+            last_cmd = "o" + last_cmd
+        lines.append(last_cmd)
         if "roundtrip" in aspects and b["calls"][-1]["exp"]["ret"] != "unspec":
             lines += ["print c1", "init c2 S %d" % FLAGBITS["COMMENTS"], "reparse c1 c2", "print c2",
                       "init c3 S %d" % FLAGBITS["COMMENTS"], "reparse c2 c3", "print c3", "free c2", "free c3"]
@@ -164,6 +171,9 @@ def replay(verdict, exe, res, aspects, seed=0, tag="api", pol=None, sigprefix="a
         if "roundtrip" in aspects and b["calls"][-1]["exp"]["ret"] != "unspec":
             rt_check(verdict, b, g, desc, rep, sigprefix)
         lines = [l for l in g["lines"] if l["cmd"] not in ("init", "parsebuf", "free", "obs", "print", "reparse", "searchpath")]
+        for l in lines:
+            if l["cmd"].startswith("o") and l["cmd"][1:] in OPT_VARIANT:
+                l["cmd"] = l["cmd"][1:]
         if len(lines) != len(b["calls"]):
             raise ModelError("behaviour %s: %d observations for %d calls" % (bid, len(lines), len(b["calls"])))
         before = [l for l in g["lines"] if l["cmd"] == "obs"][-1]["ctx"].get("c1")
